@@ -53,7 +53,7 @@ func As(err error, target interface{}) bool {
 	targetType := val.Type().Elem()
 	var rec func(e error) bool
 	rec = func(e error) bool {
-		for {
+		for e != nil {
 			if reflect.TypeOf(e).AssignableTo(targetType) {
 				val.Elem().Set(reflect.ValueOf(e))
 				return true
@@ -61,17 +61,17 @@ func As(err error, target interface{}) bool {
 			if x, ok := e.(interface{ As(interface{}) bool }); ok && x.As(target) {
 				return true
 			}
-			if c := errbase.UnwrapOnce(e); c != nil {
-				e = c
-				continue
-			}
+			// Branches first (depth-first, in order), as the standard
+			// library does; then the single cause, if the node also has
+			// one (a multi-error type with a Cause() method).
 			for _, b := range errbase.UnwrapMulti(e) {
 				if b != nil && rec(b) {
 					return true
 				}
 			}
-			return false
+			e = errbase.UnwrapOnce(e)
 		}
+		return false
 	}
 	if err == nil {
 		return false
